@@ -13,7 +13,7 @@
 //!       gossip address: marker (receiver's id), the change under test (declared id, or the encoded
 //!       frame cut right before the `cluster_id` field), marker (receiver's id).  Every frame is a
 //!       complete `UniPayload::V1 { Broadcast(Change(ChangeV1 { Full … })) }` for a fresh row of `tests`
-//!       from a fresh actor.  Waits (≤ 20 s) until the row under test is visible, or both markers are (then
+//!       from a fresh actor.  Waits (≤ 45 s) until the row under test is visible, or both markers are (then
 //!       one more marker on a second stream as a barrier) → `applied` | `dropped`.
 //!   sync <client|absent> <server>
 //!       (a) raw client: `Transport::open_bi`, `BiPayload::V1 { SyncStart, cluster_id }` (or cut before the
@@ -36,6 +36,19 @@
 //!       `BroadcastInput::AddBroadcast|Rebroadcast` is given to the agent's real broadcast loop and the
 //!       listeners record who receives it.  A harness-owned same-cluster sentinel member tells when the
 //!       loop's flush tick has happened.
+//!
+//!   switch <old> <new> <local|relay|sync> <members>
+//!       the lab agent's long-running tasks are up; its id is <old> (`Agent::set_cluster_id`), the table holds
+//!       members of <old> and of <new> (plus one harness sentinel per cluster); it decides once (broadcast /
+//!       `handle_sync`), then its id is changed AT RUN TIME to <new> — `set_cluster_id`, what the admin command
+//!       `cluster set-id` ends in (admin.rs lives in the binary crate and is not reachable from here) — and it
+//!       decides again on the same table.  After the change no member of <old> may be picked or receive a frame,
+//!       every member of <new> must, and the frames must declare <new>.
+//!   reconf <A> <B> <declared|absent>
+//!       a real receiver with id <A> accepts a connection; its id is set to <B> at run time; the payload under
+//!       test is sent over that old connection and over a brand-new one.  The new connection must follow <B>
+//!       (oracle); what the old connection does is the documented observation
+//!       `observation_stale_connection_after_set_id` (tagged, not a failure).
 //!
 //! Independent oracle (no model involved): a change declared for another cluster never becomes visible and
 //! leaves no trace in crsql_site_id / crsql_db_versions / __corro_seq_bookkeeping / __corro_buffered_changes /
@@ -86,14 +99,17 @@ use crate::util::*;
 
 pub struct C16;
 
-const WAIT: Duration = Duration::from_secs(20);
+/// deadline of every positive wait (the machine may be heavily loaded; a wait that succeeds costs nothing)
+const WAIT: Duration = Duration::from_secs(45);
 const POLL: Duration = Duration::from_millis(15);
 /// listeners 0..=11 are the members a case can name, 12 is the address given to the node's own entry,
 /// 13 the harness-owned sentinel
 const N_TOKEN_LISTENERS: usize = 12;
 const SELF_L: usize = 12;
 const SENTINEL_L: usize = 13;
-const N_LISTENERS: usize = 14;
+/// second harness-owned member (the `switch` op needs one sentinel per cluster)
+const SENTINEL2_L: usize = 14;
+const N_LISTENERS: usize = 15;
 const MAX_CANDIDATES: usize = 6;
 const MAX_TARGETS: usize = 8;
 /// one RTT sample (ms) inside each of `RING_BUCKETS`
@@ -142,8 +158,12 @@ struct World {
     tmp: TmpDir,
     nodes: BTreeMap<(u16, u8), Arc<Node>>,
     client: Transport,
+    gossip_conf: klukai_types::config::GossipConfig,
+    rtt_tx: tokio::sync::mpsc::Sender<(SocketAddr, Duration)>,
     _rtt_rx: tokio::sync::mpsc::Receiver<(SocketAddr, Duration)>,
     lab: Option<Result<Arc<Lab>, String>>,
+    /// receiver whose cluster id is changed at run time by the `reconf` op
+    reconf: Option<Arc<Node>>,
 }
 
 fn runtime() -> &'static tokio::runtime::Runtime {
@@ -234,8 +254,21 @@ impl World {
             .db_path(tmp.path().join("unused.db").display().to_string())
             .build()
             .map_err(|x| x.to_string())?;
-        let client = Transport::new(&conf.gossip, rtt_tx).await.map_err(|x| format!("transport: {x:#}"))?;
-        Ok(World { tmp, nodes: BTreeMap::new(), client, _rtt_rx: rtt_rx, lab: None })
+        let client = Transport::new(&conf.gossip, rtt_tx.clone()).await.map_err(|x| format!("transport: {x:#}"))?;
+        Ok(World { tmp, nodes: BTreeMap::new(), client, gossip_conf: conf.gossip.clone(), rtt_tx, _rtt_rx: rtt_rx, lab: None, reconf: None })
+    }
+
+    /// a brand-new real `Transport`: its first use opens a NEW connection to the receiver
+    async fn new_transport(&self) -> Result<Transport, OpErr> {
+        Transport::new(&self.gossip_conf, self.rtt_tx.clone()).await.map_err(|x| OpErr::Inconclusive(format!("transport: {x:#}")))
+    }
+
+    async fn reconf_node(&mut self) -> Result<Arc<Node>, OpErr> {
+        if self.reconf.is_none() {
+            let dir = self.tmp.path().join(format!("reconf-{}", fresh()));
+            self.reconf = Some(Arc::new(launch(dir, 0, false).await.map_err(inc("agent start"))?));
+        }
+        Ok(self.reconf.as_ref().unwrap().clone())
     }
 
     async fn ensure(&mut self, cluster: u16, slot: u8) -> Result<Arc<Node>, OpErr> {
@@ -256,6 +289,9 @@ impl World {
             let _ = n.trip_tx.send(()).await;
         }
         self.nodes.clear();
+        if let Some(n) = self.reconf.take() {
+            let _ = n.trip_tx.send(()).await;
+        }
     }
 
     async fn lab(&mut self) -> Result<Arc<Lab>, OpErr> {
@@ -423,54 +459,61 @@ fn declared(c: Option<u16>) -> u16 {
     c.unwrap_or(0)
 }
 
-async fn op_bcast(w: &mut World, sender: Option<u16>, recv: u16) -> Result<Out, OpErr> {
-    let node = w.ensure(recv, 0).await?;
+/// marker(`marker`), the change under test (`declared`, None = field cut off), marker(`marker`) in ONE uni
+/// stream over `client`; → (did the change under test become visible, its actor).  `Inconclusive` when
+/// neither it nor the two markers became visible.
+async fn bcast_probe(client: &Transport, node: &Node, marker: u16, declared_id: Option<u16>) -> Result<(bool, ActorId), OpErr> {
     let ts = Timestamp::from(node.agent.clock().new_timestamp());
     let (a1, ax, a2, a3) = (fresh_actor(), fresh_actor(), fresh_actor(), fresh_actor());
     let (r1, rx, r2, r3) = (fresh_row(), fresh_row(), fresh_row(), fresh_row());
     let mut stream = BytesMut::new();
-    frame(uni_bytes(mk_change(a1, r1, ts), Some(recv)), &mut stream);
-    frame(uni_bytes(mk_change(ax, rx, ts), sender), &mut stream);
-    frame(uni_bytes(mk_change(a2, r2, ts), Some(recv)), &mut stream);
-    w.client.send_uni(node.gossip, stream.freeze()).await.map_err(inc("send_uni"))?;
+    frame(uni_bytes(mk_change(a1, r1, ts), Some(marker)), &mut stream);
+    frame(uni_bytes(mk_change(ax, rx, ts), declared_id), &mut stream);
+    frame(uni_bytes(mk_change(a2, r2, ts), Some(marker)), &mut stream);
+    client.send_uni(node.gossip, stream.freeze()).await.map_err(inc("send_uni"))?;
 
     let t0 = Instant::now();
     let mut applied = false;
     loop {
-        if row_visible(&node, rx).await? {
+        if row_visible(node, rx).await? {
             applied = true;
             break;
         }
-        if row_visible(&node, r1).await? && row_visible(&node, r2).await? {
+        if row_visible(node, r1).await? && row_visible(node, r2).await? {
             break;
         }
         if t0.elapsed() > WAIT {
-            return Err(OpErr::Inconclusive("neither the change under test nor the two same-cluster markers became visible within 20 s".into()));
+            return Err(OpErr::Inconclusive("neither the change under test nor the two same-cluster markers became visible in time".into()));
         }
         tokio::time::sleep(POLL).await;
     }
     if !applied {
         // barrier: one more same-cluster marker, second stream, same connection
         let mut s2 = BytesMut::new();
-        frame(uni_bytes(mk_change(a3, r3, ts), Some(recv)), &mut s2);
-        w.client.send_uni(node.gossip, s2.freeze()).await.map_err(inc("send_uni"))?;
+        frame(uni_bytes(mk_change(a3, r3, ts), Some(marker)), &mut s2);
+        client.send_uni(node.gossip, s2.freeze()).await.map_err(inc("send_uni"))?;
         let t1 = Instant::now();
         loop {
-            if row_visible(&node, rx).await? {
+            if row_visible(node, rx).await? {
                 applied = true;
                 break;
             }
-            if row_visible(&node, r3).await? {
-                applied = row_visible(&node, rx).await?;
+            if row_visible(node, r3).await? {
+                applied = row_visible(node, rx).await?;
                 break;
             }
             if t1.elapsed() > WAIT {
-                return Err(OpErr::Inconclusive("barrier marker not applied within 20 s".into()));
+                return Err(OpErr::Inconclusive("barrier marker not applied in time".into()));
             }
             tokio::time::sleep(POLL).await;
         }
     }
+    Ok((applied, ax))
+}
 
+async fn op_bcast(w: &mut World, sender: Option<u16>, recv: u16) -> Result<Out, OpErr> {
+    let node = w.ensure(recv, 0).await?;
+    let (applied, ax) = bcast_probe(&w.client, &node, recv, sender).await?;
     let same = declared(sender) == recv;
     let mut o = Out { line: if applied { "applied".into() } else { "dropped".into() }, ..Default::default() };
     let sdesc = sender.map(|s| s.to_string()).unwrap_or_else(|| "absent(=0)".into());
@@ -487,6 +530,49 @@ async fn op_bcast(w: &mut World, sender: Option<u16>, recv: u16) -> Result<Out, 
     }
     o.nontrivial = !same || sender.is_none();
     o.tags.push(format!("bcast:{}", if sender.is_none() { if same { "absent-to-0" } else { "absent-to-nonzero" } } else if same { "same" } else { "different" }));
+    Ok(o)
+}
+
+/// `reconf <A> <B> <declared>`: a real receiver whose id is `A` accepts a connection (one payload declaring
+/// `A` goes through it), then `Agent::set_cluster_id(B)` — what `corrosion cluster set-id` ends in — and the
+/// payload under test is sent (1) over the connection accepted before the change, (2) over a brand-new one.
+async fn op_reconf(w: &mut World, a: u16, b: u16, d: Option<u16>) -> Result<Out, OpErr> {
+    let node = w.reconf_node().await?;
+    node.agent.set_cluster_id(ClusterId(a));
+    let t1 = w.new_transport().await?;
+    let (warm, _) = bcast_probe(&t1, &node, a, Some(a)).await?;
+    if !warm {
+        return Err(OpErr::Inconclusive("warm-up payload on the first connection was not applied".into()));
+    }
+    node.agent.set_cluster_id(ClusterId(b));
+    // (1) the uni handler of the old connection still holds `a`: its markers declare `a`
+    let (stale, ax1) = bcast_probe(&t1, &node, a, d).await?;
+    // (2) a connection accepted after the change
+    let t2 = w.new_transport().await?;
+    let (fresh_applied, ax2) = bcast_probe(&t2, &node, b, d).await?;
+    let sh = |x: bool| if x { "applied" } else { "dropped" };
+    let mut o = Out { line: format!("stale-conn={} fresh-conn={}", sh(stale), sh(fresh_applied)), ..Default::default() };
+    let ddesc = d.map(|s| s.to_string()).unwrap_or_else(|| "absent(=0)".into());
+    let same_now = declared(d) == b;
+    if fresh_applied != same_now {
+        o.fails.push(format!(
+            "after set-id {a}→{b} a NEW connection {} a payload declaring {ddesc}",
+            if fresh_applied { "applied" } else { "dropped" }
+        ));
+    }
+    if !same_now && !fresh_applied && !traces_of(&node, ax2).await?.is_empty() {
+        o.fails.push(format!("payload declaring {ddesc} left traces at a node whose id was set to {b}"));
+    }
+    if stale && !same_now {
+        // documented observation (observation_stale_connection_after_set_id), outside the property's quantifier
+        o.tags.push("observation:connection-accepted-before-set-id-applied-a-payload-of-the-former-cluster".into());
+        let _ = ax1;
+    }
+    if !stale && same_now && a != b {
+        o.tags.push("observation:connection-accepted-before-set-id-dropped-a-payload-of-the-new-cluster".into());
+    }
+    o.nontrivial = a != b;
+    o.tags.push(format!("reconf:{}", if a == b { "same-id" } else if same_now { "declares-new" } else if declared(d) == a { "declares-old" } else { "declares-third" }));
     Ok(o)
 }
 
@@ -633,7 +719,7 @@ async fn op_sync(w: &mut World, client: Option<u16>, server_c: u16) -> Result<Ou
                 Ok(_n) => {
                     let seen = wait_until(WAIT, || row_visible(&cl, row)).await?;
                     if !seen && same {
-                        return Err(OpErr::Inconclusive("synced row not visible at the client within 20 s".into()));
+                        return Err(OpErr::Inconclusive("synced row not visible at the client in time".into()));
                     }
                     if !same {
                         if seen {
@@ -739,10 +825,17 @@ async fn start_lab(dir: PathBuf) -> Result<Lab, String> {
     for attempt in 0..3 {
         let _ = lab.node.agent.tx_foca().send(FocaInput::ClusterSize(30u32.try_into().unwrap())).await;
         let toks: Vec<Tok> = (0..7).map(|i| Tok { id: Id::N(i), cluster: 0, ring: None, ts: 1, addr: i }).collect();
-        match targets_run(&lab, 0, false, &toks, Duration::from_secs(8)).await {
-            Ok((_, sent, _)) if sent.len() == 8 => return Ok(lab), // 7 members + the sentinel
+        let sentinels = [(SENTINEL_L, 0u16)];
+        lab.node.agent.set_cluster_id(ClusterId(0));
+        let r = match fill_table(&lab, &toks, &sentinels) {
+            Ok(_) => broadcast_observe(&lab, 0, false, &toks, &sentinels, Duration::from_secs(15)).await,
+            Err(e) => Err(e),
+        };
+        clear_table(&lab);
+        match r {
+            Ok((sent, _)) if sent.len() == 8 => return Ok(lab), // 7 members + the sentinel
             Ok(_) | Err(_) if attempt < 2 => continue,
-            Ok((_, sent, _)) => return Err(format!("calibration: a relayed broadcast reached only {} of 8 same-cluster members", sent.len())),
+            Ok((sent, _)) => return Err(format!("calibration: a relayed broadcast reached only {} of 8 same-cluster members", sent.len())),
             Err(e) => return Err(format!("calibration: {e}")),
         }
     }
@@ -846,17 +939,16 @@ fn ts_of(k: u8) -> Timestamp {
 
 fn show_ids(set: &BTreeSet<usize>) -> String {
     // numeric ids ascending, the node itself (`s`) last — as the driver prints
-    let v: Vec<String> = set.iter().filter(|l| **l != SENTINEL_L).map(|l| if *l == SELF_L { "s".to_string() } else { l.to_string() }).collect();
+    let v: Vec<String> = set.iter().filter(|l| **l != SENTINEL_L && **l != SENTINEL2_L).map(|l| if *l == SELF_L { "s".to_string() } else { l.to_string() }).collect();
     show_list(&v, ",")
 }
 
 /// Applies the announcements in list order to the real `Members` of the lab agent with the real
-/// `add_member` (one critical section), gives every FINAL identity its ring with one `add_rtt` sample, and
-/// returns the listeners that the real `Members::ring0(agent.cluster_id())` yields, plus oracle failures
-/// about the table itself (a stored cluster id that is not the one of the actor's newest identity).
-fn fill_table(lab: &Lab, mine: u16, anns: &[Tok], sentinel: bool) -> Result<(BTreeSet<usize>, Vec<String>), String> {
+/// `add_member` (one critical section), gives every FINAL identity its ring with one `add_rtt` sample, adds
+/// the harness-owned sentinels `(listener, cluster)`; returns oracle failures about the table itself (a stored
+/// cluster id that is not the one of the actor's newest identity).  Does not touch the agent's cluster id.
+fn fill_table(lab: &Lab, anns: &[Tok], sentinels: &[(usize, u16)]) -> Result<Vec<String>, String> {
     let agent = &lab.node.agent;
-    agent.set_cluster_id(ClusterId(mine));
     let finals = final_table(anns);
     let mut fails = vec![];
     let mut m = agent.members().write();
@@ -878,14 +970,37 @@ fn fill_table(lab: &Lab, mine: u16, anns: &[Tok], sentinel: bool) -> Result<(BTr
         let stored = m.states.get(&actor).map(|s| s.cluster_id.0);
         if stored != Some(t.cluster) {
             fails.push(format!(
-                "the membership table of the cluster-{mine} node holds cluster {stored:?} for member {:?} whose newest identity (ts {}) declares cluster {}",
+                "the membership table holds cluster {stored:?} for member {:?} whose newest identity (ts {}) declares cluster {}",
                 t.id, t.ts, t.cluster
             ));
         }
     }
-    if sentinel {
-        let l = &lab.listeners[SENTINEL_L];
-        m.add_member(&Actor::new(l.actor, l.addr, ts_of(1), ClusterId(mine)));
+    for (l, c) in sentinels {
+        let l = &lab.listeners[*l];
+        m.add_member(&Actor::new(l.actor, l.addr, ts_of(1), ClusterId(*c)));
+    }
+    Ok(fails)
+}
+
+/// The real `Members::ring0(agent.cluster_id())` as listener indices.  In the same critical section the rings
+/// are first put back to what the table says (`rtts` cleared, one sample per ring-carrying member): the lab
+/// agent's own RTT handler applies samples of the harness's earlier dummy connections up to a second late,
+/// which would otherwise move members into ring 0 between two phases of a case.
+fn real_ring0(lab: &Lab, finals: &[Tok]) -> Result<BTreeSet<usize>, String> {
+    let agent = &lab.node.agent;
+    let mut m = agent.members().write();
+    m.rtts.clear();
+    for st in m.states.values_mut() {
+        st.ring = None;
+    }
+    for t in finals {
+        if let Some(r) = t.ring {
+            m.add_rtt(lab.listeners[t.addr].addr, Duration::from_millis(RING_MS[r as usize]));
+        }
+        let got = m.states.get(&actor_of(lab, t.id)).map(|s| s.ring);
+        if got != Some(t.ring) {
+            return Err(format!("member {:?} has ring {got:?}, wanted {:?}", t.id, t.ring));
+        }
     }
     let r0: Vec<SocketAddr> = m.ring0(agent.cluster_id()).collect();
     let mut out = BTreeSet::new();
@@ -897,7 +1012,7 @@ fn fill_table(lab: &Lab, mine: u16, anns: &[Tok], sentinel: bool) -> Result<(BTr
             None => return Err(format!("ring0 yielded an unknown address {a}")),
         }
     }
-    Ok((out, fails))
+    Ok(out)
 }
 
 fn clear_table(lab: &Lab) {
@@ -916,23 +1031,18 @@ fn has_updates(anns: &[Tok]) -> bool {
     anns.iter().enumerate().any(|(i, a)| anns[..i].iter().any(|b| b.id == a.id))
 }
 
-async fn op_candidates(w: &mut World, mine: u16, anns: &[Tok]) -> Result<Out, OpErr> {
-    let finals = final_table(anns);
-    let toks: &[Tok] = &finals;
-    let expect = expected_peers(mine, toks);
-    if expect.len() > MAX_CANDIDATES {
-        return Ok(Out { line: "err too-many-eligible".into(), ..Default::default() });
-    }
-    let lab = w.lab().await?;
-    let (_, mut fails) = fill_table(&lab, mine, anns, false).map_err(OpErr::Inconclusive)?;
+/// The real `handle_sync`, repeated after `update_sync_ts` of the contacted members until nobody new is
+/// picked → (listeners that got a SyncStart, oracle failures about the declared id).
+async fn sync_rounds(lab: &Lab, mine: u16, finals: &[Tok]) -> Result<(BTreeSet<usize>, Vec<String>), OpErr> {
     let mut chosen: BTreeSet<usize> = BTreeSet::new();
+    let mut fails = vec![];
     for _round in 0..5 {
         let mark = lab.contacts.lock().unwrap().len();
         // the real selection + the real client handshake; the listeners end the session at once, so the
         // call returns an error after every chosen member has been contacted
         let _ = tokio::time::timeout(WAIT, handle_sync(&lab.node.agent, &lab.node.bookie, &lab.node.transport))
             .await
-            .map_err(|_| OpErr::Inconclusive("handle_sync did not return within 20 s".into()))?;
+            .map_err(|_| OpErr::Inconclusive("handle_sync did not return in time".into()))?;
         let new: Vec<Contact> = lab.contacts.lock().unwrap()[mark..].to_vec();
         let mut fresh_members = 0;
         let ts = Timestamp::from(lab.node.agent.clock().new_timestamp());
@@ -945,8 +1055,8 @@ async fn op_candidates(w: &mut World, mine: u16, anns: &[Tok]) -> Result<Out, Op
                     fresh_members += 1;
                 }
                 // what a completed sync does (`parallel_sync` → `update_sync_ts`): the next call prefers the others
-                if let Some(t) = toks.iter().find(|t| t.addr == c.listener) {
-                    lab.node.agent.members().write().update_sync_ts(&actor_of(&lab, t.id), ts);
+                if let Some(t) = finals.iter().find(|t| t.addr == c.listener) {
+                    lab.node.agent.members().write().update_sync_ts(&actor_of(lab, t.id), ts);
                 }
             }
         }
@@ -954,22 +1064,42 @@ async fn op_candidates(w: &mut World, mine: u16, anns: &[Tok]) -> Result<Out, Op
             break;
         }
     }
-    clear_table(&lab);
-    let mut o = Out { line: format!("chosen {}", show_ids(&chosen)), fails, ..Default::default() };
-    for l in &chosen {
-        match toks.iter().find(|t| t.addr == *l) {
-            Some(t) if t.id == Id::Me => o.fails.push("handle_sync chose the node itself as a sync partner".into()),
-            Some(t) if t.cluster != mine => o.fails.push(format!("handle_sync of a cluster-{mine} node chose member {l} of cluster {} as a sync partner", t.cluster)),
+    Ok((chosen, fails))
+}
+
+fn judge_candidates(mine: u16, finals: &[Tok], chosen: &BTreeSet<usize>) -> Vec<String> {
+    let mut fails = vec![];
+    for l in chosen {
+        match finals.iter().find(|t| t.addr == *l) {
+            Some(t) if t.id == Id::Me => fails.push("handle_sync chose the node itself as a sync partner".into()),
+            Some(t) if t.cluster != mine => fails.push(format!("handle_sync of a cluster-{mine} node chose member {l} of cluster {} as a sync partner", t.cluster)),
             Some(_) => {}
-            None => o.fails.push(format!("handle_sync contacted listener {l}, which is not in the table")),
+            None => fails.push(format!("handle_sync contacted listener {l}, which is not in the table")),
         }
     }
-    for l in &expect {
-        if !chosen.contains(l) {
-            o.fails.push(format!("same-cluster member {l} was never chosen as a sync partner by the cluster-{mine} node"));
+    for l in expected_peers(mine, finals) {
+        if !chosen.contains(&l) {
+            fails.push(format!("same-cluster member {l} was never chosen as a sync partner by the cluster-{mine} node"));
         }
     }
-    let clusters: BTreeSet<u16> = toks.iter().map(|t| t.cluster).collect();
+    fails
+}
+
+async fn op_candidates(w: &mut World, mine: u16, anns: &[Tok]) -> Result<Out, OpErr> {
+    let finals = final_table(anns);
+    if expected_peers(mine, &finals).len() > MAX_CANDIDATES {
+        return Ok(Out { line: "err too-many-eligible".into(), ..Default::default() });
+    }
+    let lab = w.lab().await?;
+    lab.node.agent.set_cluster_id(ClusterId(mine));
+    let mut fails = fill_table(&lab, anns, &[]).map_err(OpErr::Inconclusive)?;
+    let r = sync_rounds(&lab, mine, &finals).await;
+    clear_table(&lab);
+    let (chosen, f2) = r?;
+    fails.extend(f2);
+    fails.extend(judge_candidates(mine, &finals, &chosen));
+    let mut o = Out { line: format!("chosen {}", show_ids(&chosen)), fails, ..Default::default() };
+    let clusters: BTreeSet<u16> = finals.iter().map(|t| t.cluster).collect();
     o.nontrivial = clusters.iter().any(|c| *c != mine);
     o.tags.push(format!("candidates:clusters={}:chosen={}", clusters.len().min(4), chosen.len()));
     if has_updates(anns) {
@@ -978,11 +1108,21 @@ async fn op_candidates(w: &mut World, mine: u16, anns: &[Tok]) -> Result<Out, Op
     Ok(o)
 }
 
-/// one broadcast through the lab agent's real broadcast loop → (ring0 listeners, listeners that received it)
-async fn targets_run(lab: &Lab, mine: u16, local: bool, anns: &[Tok], deadline: Duration) -> Result<(BTreeSet<usize>, BTreeSet<usize>, Vec<String>), String> {
-    let (ring0, mut fails) = fill_table(lab, mine, anns, true)?;
-    let finals = final_table(anns);
-    let toks: &[Tok] = &finals;
+/// cluster / identity of whoever lives on listener `l` (table entry or sentinel)
+fn who(finals: &[Tok], sentinels: &[(usize, u16)], l: usize) -> Option<(u16, bool, Option<u8>)> {
+    if let Some(t) = finals.iter().find(|t| t.addr == l) {
+        return Some((t.cluster, t.id == Id::Me, t.ring));
+    }
+    sentinels.iter().find(|(sl, _)| *sl == l).map(|(_, c)| (*c, false, None))
+}
+
+/// One broadcast through the lab agent's real broadcast loop (the table is already filled, the agent's id is
+/// `mine`) → (listeners that received it, oracle failures about the declared id).  Waits until every member
+/// the oracle expects has it.  Stops earlier when the outcome is already decided: a same-cluster sentinel got
+/// it (the flush tick happened) and 4 s of re-send rounds have passed, or a member of ANOTHER cluster got it
+/// (a definite violation; 1.5 s more to collect the rest).  `Err` (→ inconclusive) only when nothing at all
+/// arrived in time.
+async fn broadcast_observe(lab: &Lab, mine: u16, local: bool, finals: &[Tok], sentinels: &[(usize, u16)], deadline: Duration) -> Result<(BTreeSet<usize>, Vec<String>), String> {
     let key = fresh_actor();
     let bcast = BroadcastV1::Change(ChangeV1 {
         actor_id: key,
@@ -997,9 +1137,10 @@ async fn targets_run(lab: &Lab, mine: u16, local: bool, anns: &[Tok], deadline: 
     let input = if local { BroadcastInput::AddBroadcast(bcast) } else { BroadcastInput::Rebroadcast(bcast) };
     lab.node.agent.tx_bcast().send(input).await.map_err(|e| format!("tx_bcast: {e}"))?;
 
-    let mut expect = expected_peers(mine, toks);
-    expect.insert(SENTINEL_L);
-    if local && toks.iter().any(|t| t.id == Id::Me && t.cluster == mine && t.ring == Some(0)) {
+    let mut expect = expected_peers(mine, finals);
+    let my_sentinels: BTreeSet<usize> = sentinels.iter().filter(|(_, c)| *c == mine).map(|(l, _)| *l).collect();
+    expect.extend(my_sentinels.iter().copied());
+    if local && finals.iter().any(|t| t.id == Id::Me && t.cluster == mine && t.ring == Some(0)) {
         // `Members::ring0` has no self-exclusion: only waited for, not required by the oracle
         expect.insert(SELF_L);
     }
@@ -1016,29 +1157,41 @@ async fn targets_run(lab: &Lab, mine: u16, local: bool, anns: &[Tok], deadline: 
         }
         (s, cl)
     };
+    let foreign = |s: &BTreeSet<usize>, cl: &[u16]| -> bool {
+        cl.iter().any(|c| *c != mine) || s.iter().any(|l| who(finals, sentinels, *l).map(|(c, _, _)| c != mine).unwrap_or(true))
+    };
     let t0 = Instant::now();
     let mut sentinel_at: Option<Instant> = None;
+    let mut foreign_at: Option<Instant> = None;
     loop {
-        let (s, _) = got(lab);
+        let (s, cl) = got(lab);
         if expect.is_subset(&s) {
             break;
         }
-        if s.contains(&SENTINEL_L) && sentinel_at.is_none() {
+        if sentinel_at.is_none() && s.iter().any(|l| my_sentinels.contains(l)) {
             sentinel_at = Some(Instant::now());
+        }
+        if foreign_at.is_none() && foreign(&s, &cl) {
+            foreign_at = Some(Instant::now());
         }
         // the flush tick has demonstrably happened and every re-send round (≤ 5, 100 ms × count apart) is
         // over: whoever is still missing was not a target — that is for the oracle to judge, not a timeout
         if sentinel_at.map(|t| t.elapsed() > Duration::from_secs(4)).unwrap_or(false) {
             break;
         }
+        if foreign_at.map(|t| t.elapsed() > Duration::from_millis(1500)).unwrap_or(false) {
+            break;
+        }
         if t0.elapsed() > deadline {
-            clear_table(lab);
-            return Err(format!("broadcast reached {:?} of the expected {:?} within {deadline:?}", s, expect));
+            if s.is_empty() {
+                return Err(format!("the broadcast reached nobody (expected {expect:?}) within {deadline:?}"));
+            }
+            break;
         }
         tokio::time::sleep(POLL).await;
     }
-    // the flush tick has happened (the sentinel is only reached by it); give re-sends of the same pending
-    // broadcast (100 ms × send count apart) the chance to show up: wait until nothing new arrived for 450 ms
+    // give re-sends of the same pending broadcast (100 ms × send count apart) the chance to show up: wait
+    // until nothing new arrived for 450 ms
     let mut last = got(lab).0;
     let mut quiet_since = Instant::now();
     let t1 = Instant::now();
@@ -1050,59 +1203,127 @@ async fn targets_run(lab: &Lab, mine: u16, local: bool, anns: &[Tok], deadline: 
             quiet_since = Instant::now();
         }
     }
-    clear_table(lab);
     let (sent, clusters) = got(lab);
-    if let Some(c) = clusters.iter().find(|c| **c != mine) {
-        fails.push(format!("a broadcast payload sent by a cluster-{mine} node declared cluster {c}"));
+    let mut fails = vec![];
+    let mut declared_ids: Vec<u16> = clusters.into_iter().filter(|c| *c != mine).collect();
+    declared_ids.sort();
+    declared_ids.dedup();
+    for c in declared_ids {
+        fails.push(format!("a broadcast payload sent by a node whose cluster id is {mine} declared cluster {c}"));
     }
-    Ok((ring0, sent, fails))
+    Ok((sent, fails))
+}
+
+fn judge_targets(mine: u16, local: bool, finals: &[Tok], sentinels: &[(usize, u16)], ring0: &BTreeSet<usize>, sent: &BTreeSet<usize>) -> Vec<String> {
+    let mut fails = vec![];
+    for l in ring0 {
+        match who(finals, sentinels, *l) {
+            Some((c, _, _)) if c != mine => fails.push(format!("ring0 of a cluster-{mine} node contains member {l} of cluster {c}")),
+            Some((_, _, ring)) if ring != Some(0) => fails.push(format!("ring0 contains member {l} whose ring is {ring:?}")),
+            Some(_) => {}
+            None => fails.push(format!("ring0 contains listener {l}, which is not in the table")),
+        }
+    }
+    for t in finals.iter().filter(|t| t.cluster == mine && t.ring == Some(0)) {
+        if !ring0.contains(&t.addr) {
+            fails.push(format!("same-cluster ring-0 member {:?} is missing from ring0", t.id));
+        }
+    }
+    for l in sent {
+        match who(finals, sentinels, *l) {
+            Some((c, _, _)) if c != mine => fails.push(format!("a node whose cluster id is {mine} sent a broadcast to member {l} of cluster {c}")),
+            Some((_, true, ring)) if !(local && ring == Some(0)) => fails.push("the node sent a broadcast to its own entry outside the ring-0 path".into()),
+            Some(_) => {}
+            None => fails.push(format!("broadcast reached listener {l}, which is not in the table")),
+        }
+    }
+    let mut expect = expected_peers(mine, finals);
+    expect.extend(sentinels.iter().filter(|(_, c)| *c == mine).map(|(l, _)| *l));
+    for l in &expect {
+        if !sent.contains(l) {
+            fails.push(format!("same-cluster member {l} never received the broadcast of the node whose cluster id is {mine}"));
+        }
+    }
+    fails
 }
 
 async fn op_targets(w: &mut World, mine: u16, local: bool, anns: &[Tok]) -> Result<Out, OpErr> {
     let finals = final_table(anns);
-    let toks: &[Tok] = &finals;
-    let expect = expected_peers(mine, toks);
-    if expect.len() > MAX_TARGETS {
+    if expected_peers(mine, &finals).len() > MAX_TARGETS {
         return Ok(Out { line: "err too-many-eligible".into(), ..Default::default() });
     }
     let lab = w.lab().await?;
+    let sentinels = [(SENTINEL_L, mine)];
+    lab.node.agent.set_cluster_id(ClusterId(mine));
     let mut o = Out::default();
-    let (ring0, sent, fails) = targets_run(&lab, mine, local, anns, WAIT).await.map_err(OpErr::Inconclusive)?;
+    o.fails.extend(fill_table(&lab, anns, &sentinels).map_err(OpErr::Inconclusive)?);
+    let ring0 = real_ring0(&lab, &finals).map_err(OpErr::Inconclusive)?;
+    let r = broadcast_observe(&lab, mine, local, &finals, &sentinels, WAIT).await;
+    clear_table(&lab);
+    let (sent, fails) = r.map_err(OpErr::Inconclusive)?;
     o.fails.extend(fails);
+    o.fails.extend(judge_targets(mine, local, &finals, &sentinels, &ring0, &sent));
     o.line = format!("ring0={} sent={}", show_ids(&ring0), show_ids(&sent));
-    let tok_of = |l: usize| toks.iter().find(|t| t.addr == l);
-    for l in &ring0 {
-        match tok_of(*l) {
-            Some(t) if t.cluster != mine => o.fails.push(format!("ring0 of a cluster-{mine} node contains member {l} of cluster {}", t.cluster)),
-            Some(t) if t.ring != Some(0) => o.fails.push(format!("ring0 contains member {l} whose ring is {:?}", t.ring)),
-            Some(_) => {}
-            None => o.fails.push(format!("ring0 contains listener {l}, which is not in the table")),
-        }
-    }
-    for t in toks.iter().filter(|t| t.cluster == mine && t.ring == Some(0)) {
-        if !ring0.contains(&t.addr) {
-            o.fails.push(format!("same-cluster ring-0 member {:?} is missing from ring0", t.id));
-        }
-    }
-    for l in sent.iter().filter(|l| **l != SENTINEL_L) {
-        match tok_of(*l) {
-            Some(t) if t.cluster != mine => o.fails.push(format!("a cluster-{mine} node sent a broadcast to member {l} of cluster {}", t.cluster)),
-            Some(t) if t.id == Id::Me && !(local && t.ring == Some(0)) => o.fails.push("the node sent a broadcast to its own entry outside the ring-0 path".into()),
-            Some(_) => {}
-            None => o.fails.push(format!("broadcast reached listener {l}, which is not in the table")),
-        }
-    }
-    for l in &expect {
-        if !sent.contains(l) {
-            o.fails.push(format!("same-cluster member {l} never received the broadcast of the cluster-{mine} node"));
-        }
-    }
-    let clusters: BTreeSet<u16> = toks.iter().map(|t| t.cluster).collect();
+    let clusters: BTreeSet<u16> = finals.iter().map(|t| t.cluster).collect();
     o.nontrivial = clusters.iter().any(|c| *c != mine);
     if has_updates(anns) {
         o.tags.push("targets:with-identity-updates".into());
     }
     o.tags.push(format!("targets:{}:clusters={}:sent={}", if local { "local" } else { "relay" }, clusters.len().min(4), sent.len().saturating_sub(1).min(9)));
+    Ok(o)
+}
+
+/// `switch <old> <new> <local|relay|sync> <members>`: the lab agent's tasks are running; its id is `old`, it
+/// decides once; then `Agent::set_cluster_id(new)` at run time (what `corrosion cluster set-id` ends in) with
+/// the SAME table — members of both clusters — and it decides again.
+async fn op_switch(w: &mut World, old: u16, new: u16, mode: &str, anns: &[Tok]) -> Result<Out, OpErr> {
+    let finals = final_table(anns);
+    let lim = if mode == "sync" { MAX_CANDIDATES } else { MAX_TARGETS };
+    if expected_peers(old, &finals).len() > lim || expected_peers(new, &finals).len() > lim {
+        return Ok(Out { line: "err too-many-eligible".into(), ..Default::default() });
+    }
+    let lab = w.lab().await?;
+    let mut o = Out::default();
+    let tagf = |phase: &str, v: Vec<String>| -> Vec<String> { v.into_iter().map(|f| format!("[{phase}] {f}")).collect() };
+    let after = format!("after set-id {old}→{new} at run time");
+    lab.node.agent.set_cluster_id(ClusterId(old));
+    if mode == "sync" {
+        o.fails.extend(fill_table(&lab, anns, &[]).map_err(OpErr::Inconclusive)?);
+        let r1 = sync_rounds(&lab, old, &finals).await;
+        let r2 = match &r1 {
+            Ok(_) => {
+                lab.node.agent.set_cluster_id(ClusterId(new));
+                Some(sync_rounds(&lab, new, &finals).await)
+            }
+            Err(_) => None,
+        };
+        clear_table(&lab);
+        let (c1, f1) = r1?;
+        let (c2, f2) = r2.unwrap()?;
+        o.fails.extend(tagf("before set-id", [f1, judge_candidates(old, &finals, &c1)].concat()));
+        o.fails.extend(tagf(&after, [f2, judge_candidates(new, &finals, &c2)].concat()));
+        o.line = format!("before chosen={} after chosen={}", show_ids(&c1), show_ids(&c2));
+    } else {
+        let local = mode == "local";
+        let sentinels = [(SENTINEL_L, old), (SENTINEL2_L, new)];
+        o.fails.extend(fill_table(&lab, anns, &sentinels).map_err(OpErr::Inconclusive)?);
+        let run = async {
+            let ring_a = real_ring0(&lab, &finals)?;
+            let (sent_a, fa) = broadcast_observe(&lab, old, local, &finals, &sentinels, WAIT).await?;
+            lab.node.agent.set_cluster_id(ClusterId(new));
+            let ring_b = real_ring0(&lab, &finals)?;
+            let (sent_b, fb) = broadcast_observe(&lab, new, local, &finals, &sentinels, WAIT).await?;
+            Ok::<_, String>((ring_a, sent_a, fa, ring_b, sent_b, fb))
+        }
+        .await;
+        clear_table(&lab);
+        let (ring_a, sent_a, fa, ring_b, sent_b, fb) = run.map_err(OpErr::Inconclusive)?;
+        o.fails.extend(tagf("before set-id", [fa, judge_targets(old, local, &finals, &sentinels, &ring_a, &sent_a)].concat()));
+        o.fails.extend(tagf(&after, [fb, judge_targets(new, local, &finals, &sentinels, &ring_b, &sent_b)].concat()));
+        o.line = format!("before ring0={} sent={} after ring0={} sent={}", show_ids(&ring_a), show_ids(&sent_a), show_ids(&ring_b), show_ids(&sent_b));
+    }
+    o.nontrivial = old != new;
+    o.tags.push(format!("switch:{mode}:{}", if old == new { "same-id" } else { "new-id" }));
     Ok(o)
 }
 
@@ -1144,6 +1365,19 @@ async fn exec_op(w: &mut World, toks: &[&str]) -> Result<Out, OpErr> {
             let ms = parse_members(ms).ok_or(OpErr::Bad)?;
             op_targets(w, mine, local, &ms).await
         }
+        ["switch", old, new, mode, ms] => {
+            let (old, new) = (parse_cluster(old).ok_or(OpErr::Bad)?, parse_cluster(new).ok_or(OpErr::Bad)?);
+            if !matches!(*mode, "local" | "relay" | "sync") {
+                return Err(OpErr::Bad);
+            }
+            let ms = parse_members(ms).ok_or(OpErr::Bad)?;
+            op_switch(w, old, new, mode, &ms).await
+        }
+        ["reconf", a, b, d] => {
+            let (a, b) = (parse_cluster(a).ok_or(OpErr::Bad)?, parse_cluster(b).ok_or(OpErr::Bad)?);
+            let d = parse_declared(d).ok_or(OpErr::Bad)?;
+            op_reconf(w, a, b, d).await
+        }
         _ => Err(OpErr::Bad),
     }
 }
@@ -1166,22 +1400,31 @@ fn gen_declared(rng: &mut Rng, other: u16) -> String {
     }
 }
 
-fn gen_members(rng: &mut Rng, mine: u16, max_same: usize) -> String {
-    let n = rng.range(0, 10) as usize;
+/// `also`: a second cluster id that must be well represented (the `switch` op), under the same cap
+fn gen_members(rng: &mut Rng, mine: u16, max_same: usize, also: Option<u16>) -> String {
+    let n = rng.range(if also.is_some() { 2 } else { 0 }, 10) as usize;
     let mut ids: Vec<usize> = (0..N_TOKEN_LISTENERS).collect();
     rng.shuffle(&mut ids);
     let spare: Vec<usize> = ids[n.min(ids.len())..].to_vec();
-    let pool = [mine, mine, if mine == 0 { 1 } else { 0 }, mine ^ 1, mine.wrapping_add(256), 7];
+    let second = also.unwrap_or(mine.wrapping_add(256));
+    let pool = [mine, mine, if mine == 0 { 1 } else { 0 }, mine ^ 1, second, if also.is_some() { second } else { 7 }];
     let mut same = 0;
+    let mut same2 = 0;
     // (id, cluster, ring) of the FINAL identities
     let mut base: Vec<(usize, u16, String)> = vec![];
     for id in ids.into_iter().take(n) {
         let mut c = *rng.pick(&pool);
         if c == mine {
             if same >= max_same {
-                c = mine.wrapping_add(1);
+                c = mine.wrapping_add(3);
             } else {
                 same += 1;
+            }
+        } else if Some(c) == also {
+            if same2 >= max_same {
+                c = mine.wrapping_add(3);
+            } else {
+                same2 += 1;
             }
         }
         let ring = match rng.below(5) {
@@ -1261,6 +1504,17 @@ const PINNED: &[&str] = &[
     "targets 1 local 0:1:0:1,0:7:0:2,1:1:0",          // ring-0 member left the cluster, same address
     "targets 1 local 3:1:0:1,3:2:0:2:9,4:1:-",        // left the cluster and moved
     "targets 1 relay 5:2:0:5,5:1:0:2,6:1:3,7:2:-:1,7:1:-:4", // reverse order ignored; joined, same address
+    // run-time `set-id` while the tasks run, members of the old and of the new cluster in the table
+    "switch 0 7 local 0:0:0,1:7:0,2:0:-,3:7:-",
+    "switch 0 7 relay 0:0:0,1:7:0,2:0:-,3:7:-,4:3:0",
+    "switch 1 2 sync 0:1:0,1:2:-,2:1:-,3:2:3,4:0:0",
+    "switch 258 0 local 0:258:0,1:0:0,s:0:0,2:2:-",
+    "switch 3 3 relay 0:3:0,1:4:-",
+    // a receiver whose id is changed at run time: connection accepted before vs after the change
+    "reconf 1 2 1",
+    "reconf 1 2 2",
+    "reconf 0 5 absent",
+    "reconf 4 4 4",
 ];
 
 impl Prop for C16 {
@@ -1268,8 +1522,9 @@ impl Prop for C16 {
         "C16"
     }
     fn rule(&self) -> &'static str {
-        "one case = one scenario against real agents (bcast / sync / candidates / targets); non-trivial iff the gate had something to \
-         refuse or default: different or absent declared id, or a membership table with at least one member of another cluster; \
+        "one case = one scenario against real agents (bcast / sync / candidates / targets / switch / reconf); non-trivial iff the gate \
+         had something to refuse or default: different or absent declared id, a membership table with at least one member of another \
+         cluster, or a run-time change to a different id; \
          distinct by hash of the op line"
     }
     fn default_cases(&self, tier: Tier) -> usize {
@@ -1282,7 +1537,7 @@ impl Prop for C16 {
         PINNED.get(index).map(|s| vec![s.to_string()])
     }
     fn gen_case(&self, rng: &mut Rng, _tier: Tier, _index: usize) -> Vec<String> {
-        let line = match rng.below(20) {
+        let line = match rng.below(24) {
             0..=6 => {
                 let r = pick_node_cluster(rng);
                 format!("bcast {} {r}", gen_declared(rng, r))
@@ -1293,14 +1548,33 @@ impl Prop for C16 {
                 let c = if rng.chance(1, 6) { gen_declared(rng, s) } else if rng.chance(1, 3) { s.to_string() } else { pick_node_cluster(rng).to_string() };
                 format!("sync {c} {s}")
             }
-            12..=15 => {
+            12..=14 => {
                 let mine = *rng.pick(&[0u16, 1, 2, 258, 65535, 7]);
-                format!("candidates {mine} {}", gen_members(rng, mine, MAX_CANDIDATES))
+                format!("candidates {mine} {}", gen_members(rng, mine, MAX_CANDIDATES, None))
             }
-            _ => {
+            15..=17 => {
                 let mine = *rng.pick(&[0u16, 1, 2, 258, 65535, 7]);
                 let mode = if rng.chance(1, 2) { "local" } else { "relay" };
-                format!("targets {mine} {mode} {}", gen_members(rng, mine, MAX_TARGETS))
+                format!("targets {mine} {mode} {}", gen_members(rng, mine, MAX_TARGETS, None))
+            }
+            18..=21 => {
+                // run-time change of the node's id with members of both clusters in the table
+                let old = *rng.pick(&[0u16, 0, 1, 2, 258, 65535]);
+                let new = if rng.chance(1, 8) { old } else { *rng.pick(&[0u16, 1, 7, 2, 513, 65535]) };
+                let mode = *rng.pick(&["local", "relay", "sync", "local"]);
+                let lim = if mode == "sync" { MAX_CANDIDATES } else { MAX_TARGETS };
+                format!("switch {old} {new} {mode} {}", gen_members(rng, old, lim.min(4), Some(new)))
+            }
+            _ => {
+                let a = *rng.pick(&[0u16, 1, 2, 258]);
+                let b = if rng.chance(1, 6) { a } else { *rng.pick(&[0u16, 1, 5, 65535]) };
+                let d = match rng.below(5) {
+                    0 => "absent".to_string(),
+                    1 | 2 => a.to_string(),
+                    3 => b.to_string(),
+                    _ => rng.pick(&FOREIGN).to_string(),
+                };
+                format!("reconf {a} {b} {d}")
             }
         };
         vec![line]
